@@ -34,12 +34,16 @@ type input struct {
 	BadLPM float64 `json:"badlpm,omitempty"` // bad-lines-per-minute: 0 (default), 1, 600, 1e9
 	LogRaw bool    `json:"lograw,omitempty"` // log-raw-metric
 	// burst: overlapping requests; body of template i = data[i], its header and endpoint = reqs[i mod len]
-	Reqs       []reqMeta `json:"reqs,omitempty"`
-	Gor        int       `json:"gor,omitempty"`    // goroutines (connections)
-	Rounds     int       `json:"rounds,omitempty"` // requests per goroutine
-	Cuts       []int     `json:"cuts,omitempty"`   // data is cut at these offsets into successive datagrams
-	Batch      bool      `json:"batch,omitempty"`  // all datagrams in one batch (otherwise one batch each)
-	IgnoreHost bool      `json:"ignorehost,omitempty"`
+	Reqs   []reqMeta `json:"reqs,omitempty"`
+	Gor    int       `json:"gor,omitempty"`    // goroutines (connections)
+	Rounds int       `json:"rounds,omitempty"` // requests per goroutine
+	// chain: requests (data[i] with reqs[i]) sent in order into the real standalone pipeline
+	Workers    int   `json:"workers,omitempty"`    // aggregator workers
+	StaticTags bool  `json:"statictags,omitempty"` // default-tags configured (TagHandler rewrites every series)
+	FlushEvery int   `json:"flushevery,omitempty"` // a flush after every n-th request (0: only at the end)
+	Cuts       []int `json:"cuts,omitempty"`       // data is cut at these offsets into successive datagrams
+	Batch      bool  `json:"batch,omitempty"`      // all datagrams in one batch (otherwise one batch each)
+	IgnoreHost bool  `json:"ignorehost,omitempty"`
 	// recv: the socket-facing path (DatagramReceiver -> DatagramParser)
 	Sock          string `json:"sock,omitempty"`    // udp | unixgram | script (scripted PacketConn)
 	Readers       int    `json:"readers,omitempty"` // max-readers
@@ -182,7 +186,7 @@ func main() {
 			emit(lexr.run(in))
 		case "dgram":
 			emit(runDgram(in))
-		case "recv", "burst":
+		case "recv", "burst", "chain":
 			emit(recvr.run(in))
 		case "http":
 			if httpr == nil {
